@@ -38,7 +38,7 @@ def kindOf : String → Except String Kind
 def catOf : String → Except String Cat
   | "none" => pure .none | "number" => pure .number | "string" => pure .string | "scalar" => pure .scalar
   | "any" => pure .any | "untyped" => pure .untyped | "coll" => pure .coll | "struct" => pure .struct
-  | "inline" => pure .inline | "wrap" => pure .wrap | "enum" => pure .enum
+  | "inline" => pure .inline | "wrap" => pure .wrap | "enum" => pure .enum | "tupl" => pure .tupl
   | s => throw s!"unknown cat {s}"
 
 partial def shapeOf (j : Json) : Except String Shape :=
@@ -109,14 +109,17 @@ def run (j : Json) : Except String Json := do
   let admittedAll := (sitesOf shape).all (Typedpy.C19.admitted tbl op)
   let modes := Json.arr ((sitesOf shape).eraseDups.map fun kc =>
     Json.arr #[.str (toString (repr kc.1)), .str (toString (repr kc.2)), .str (modeName (modeOf tbl op kc.1 kc.2))]).toArray
+  -- sites of the declaration the table has no row for (the model then assumes the unsafe `alias`: no prediction there)
+  let unknown := Json.arr (((sitesOf shape).eraseDups.filter fun kc => (lookupRow tbl op kc.1 kc.2).isNone).map fun kc =>
+    Json.arr #[.str (toString (repr kc.1)), .str (toString (repr kc.2))]).toArray
   match r.2 with
   | none => pure (Json.mkObj [("ok", .bool false), ("argsSame", .bool argsSame), ("safe", .bool safe),
-                              ("admitted", .bool admittedAll), ("modes", modes)])
+                              ("admitted", .bool admittedAll), ("modes", modes), ("unknown", unknown)])
   | some res =>
     let reach := reachList 48 r.1 res
     let shared := dedupSorted (reach.filter fun a => a < n0 && mutableTag (h0.cells a).tag)
     pure (Json.mkObj [("ok", .bool true), ("argsSame", .bool argsSame), ("safe", .bool safe),
-                      ("admitted", .bool admittedAll), ("modes", modes),
+                      ("admitted", .bool admittedAll), ("modes", modes), ("unknown", unknown),
                       ("shared", Json.arr (shared.map fun a => Json.num (Lean.JsonNumber.fromNat a)).toArray)])
 
 end Typedpy.Drive.Alias
